@@ -458,6 +458,37 @@ def work_one_address_rate(chunk, st):
     st.sample({'one_address_rate': [list(x) for x in chunk[:2]]}, cap=3)
 
 
+# ---- IP-version options over a list: each target's entry is the one a single-target run under the same option gives (targets here have
+# IPv4 addresses only: under -6 each is unreachable, alone and in a list alike)
+def work_family_options(chunk, st):
+    for opt, archs, threads in chunk:
+        res, _s = MT.run_multi(list(archs), threads, 'json', (), ('connect',), extra=(opt,))
+        root = ('family-option', opt, archs, threads)
+        st.execution(res.world, outcome=('family-option', opt, res.status), root=root, nontrivial=root)
+        d = {'option': opt, 'targets': list(archs), 'threads': threads, 'status': res.status}
+        if res.hang or res.exc:
+            st.violation('family-option:hang-or-escaped-exception', dict(d, hang=res.hang, exc=res.exc))
+            continue
+        try:
+            doc = json.loads(res.stdout)
+        except ValueError:
+            st.violation('family-option:json-not-one-document', dict(d, tail=res.stdout[-200:]))
+            continue
+        for i, a in enumerate(archs):
+            alone = MT.run_single(a, i, 'json', None, via_targets_file=False, extra=(opt,))      # named on the command line: a fresh invocation in the plainest sense
+            try:
+                want = json.loads(alone.stdout.split('\n')[0])
+            except (ValueError, IndexError, KeyError):
+                want = {'error': alone.stdout[:200], 'target': '%s:22' % MT.host_label(i)} if alone.status == 1 else None
+            got = [e for e in doc if isinstance(e, dict) and want is not None and e.get('target') == want.get('target')]
+            if want is None or len(got) != 1:
+                st.violation('family-option:entry-missing:%s' % opt, dict(d, index=i))
+            elif ('error' in got[0]) != ('error' in want) or (('error' not in want) and got[0] != want):
+                st.violation('result-differs:under-%s:%s' % (opt, 'audited-in-the-list-but-unreachable-alone' if 'error' in want else 'other'),
+                             dict(d, index=i, alone_keys=sorted(want)[:5], in_list_keys=sorted(got[0])[:5]))
+    st.sample({'family_options': [str(x) for x in chunk[:2]]}, cap=3)
+
+
 def run(tier, seed):
     t0 = time.time()
     cs = cases(tier)
@@ -474,6 +505,7 @@ def run(tier, seed):
     par.pmap(work_debug, [(a, th) for a in (('TERR', 'CLEAN'), ('CLEAN', 'TERR'), ('RSA1024', 'MARK', 'CLEAN'), ('GEX1024', 'CLEAN')) for th in (1, 2)], stats=st, chunk=1)
     par.pmap(work_one_address_rate, [(a, b, th, 1 if th == 2 else 0) for a, b in (('TERR', 'TERR'), ('TERR', 'GEX1024'), ('RSA1024', 'CLEAN')) for th in ((1, 2) if tier == 'quick' else (1, 2, 3))],
              stats=st, chunk=1)
+    par.pmap(work_family_options, [(o, a, th) for o in ('-4', '-6', '-46', '-64') for a in (('CLEAN', 'TERR'), ('RSA1024', 'CLEAN', 'TERR')) for th in (1, 2)], stats=st, chunk=2)
     par.pmap(work_gextest, [(a, b, sp, f) for a in GEXTEST_ARCHS for b in GEXTEST_ARCHS for sp in GEXTEST_SPECS for f in ('text', 'json')], stats=st, chunk=4)
     lines = [('ssh2_kexdb', 2, 2), ('ssh1_kexdb', 2, 2)] if tier == 'quick' else [('ssh2_kexdb', 2, 3), ('ssh1_kexdb', 2, 3), ('ssh2_kexdb', 3, 2), ('ssh1_kexdb', 3, 2)]
     par.pmap(work_lines, lines, stats=st, chunk=1)
